@@ -77,23 +77,23 @@ LEVELS = {
 }
 
 TECH = {
- 'C01': 'AST writer/reader sibling comparison on a canonicalised AST: dispatch-table folding, record-sequence trees, field-map symbolic binding, chunk arithmetic, must-pass-through terminators; writer purity (alias of attribute dictionaries), shared-mutable-default and stale-flag (read-before-complete) lints; exhaustive interpretation of the main-file guard; path-sensitive name-fix dominance; strip-vs-justify wrapper check; mutable-default lint',
- 'C02': 'constant propagation over format tables + string-length abstract domain (==W, >=W, >W, <=W) with structured path analysis; class-level shared-container and memo-key lints',
- 'C03': 'AST writer/reader sibling comparison + unit/justification wrapper pairing (branch-aware alias resolution) + property-vs-attribute check + truthiness-of-optional-number contradiction rule; must-pass-through of setter effects on the header-read path; tautology detection of the justification test',
- 'C04': 'twin-loop normal-form comparison with an index algebra for the layer enumeration + dimension/affine type inference over geometry kernels; rebuild-order rule derived from store/load sets of the two index builders; layer-top typestate',
+ 'C01': 'AST writer/reader sibling comparison on a canonicalised AST: dispatch-table folding, record-sequence trees, field-map symbolic binding, chunk arithmetic, must-pass-through terminators; writer purity (alias of attribute dictionaries), shared-mutable-default and stale-flag (read-before-complete) lints; exhaustive interpretation of the main-file guard; path-sensitive name-fix dominance; strip-vs-justify wrapper check; mutable-default lint; reader/writer agreement of the generator-table type test; quantifier of the echo read-back',
+ 'C02': 'constant propagation over format tables + string-length abstract domain (==W, >=W, >W, <=W) with structured path analysis; class-level shared-container and memo-key lints; origin analysis of the fitted string (unedited % conversion)',
+ 'C03': 'AST writer/reader sibling comparison + unit/justification wrapper pairing (branch-aware alias resolution) + property-vs-attribute check + truthiness-of-optional-number contradiction rule; must-pass-through of setter effects on the header-read path; tautology detection of the justification test; quantifier of the geometry-level default-surface flag',
+ 'C04': 'twin-loop normal-form comparison with an index algebra for the layer enumeration + dimension/affine type inference over geometry kernels; rebuild-order rule derived from store/load sets of the two index builders; layer-top typestate; dependent index rebuilt under the same guards as its source; surface compared only with layer bottoms',
  'C06': 'return-value None analysis of next_table consumers; save/restore must-pass-through; effect (write-set) analysis; finite-model interpretation of skip_to_table_TOUGHplus over table layouts; sibling agreement on repeated rows',
  'C07': 'who-may-write + read-before-write effect analysis over the resolved call graph; guard-shape checks',
  'C08': 'typed container-pair effect analysis (membership changes paired on all paths), re-key shape lint',
  'C09': 'orientation-coupled field typestate; frame (write-set) analysis; dimension + partition check of MINC',
- 'C10': 'typed container-pair/back-reference effect analysis; must-pass-through refresh; surface/layer-count coupling and recount-after-rebuild rules; iterate-while-mutating lint; repair-pass must-pass-through; node-ownership check at add_column sites; bulk neighbour update pairing',
+ 'C10': 'typed container-pair/back-reference effect analysis; must-pass-through refresh; surface/layer-count coupling and recount-after-rebuild rules; iterate-while-mutating lint; repair-pass must-pass-through; node-ownership check at add_column sites; bulk neighbour update pairing; key-normalisation agreement between writers and readers of the connection dictionary',
  'C11': 'oriented edge-chain tiling proof over folded literal tables; exhaustive constant propagation of transition_type and of the decompose start-node dispatch; affine index analysis of the angle list; rebuilt-set cover rules; exhaustive interpretation of the cyclic index helpers and of how refine() consumes the dispatch result',
  'C12': 'dominance analysis of returned objects by containment tests; comparison-shape check; memo-invalidation analysis (position-derived caches vs. writers of positions); tolerance formula comparison; solution-component role check of the line/edge intersection system; wave admission must not depend on the query point',
  'C13': 'AST writer/reader sibling comparison; layout prefix; chunk arithmetic; path-sensitive name-fix dominance; flavour read-before-set',
  'C14': 'addition-chain validation of folded tables; index-use coverage; comprehension shape comparison; interval logic on guards; outward-rounded interval abstract interpretation of sat/tsat (division / sqrt safety, sign change by the intermediate value theorem); end-point constant folding',
  'C15': 'monomial abstract interpretation of straight-line products; interval logic on literal guards; clamp dominance; taint analysis of the root-finder callback argument; memo-key lint; interval evaluation of the root-finder start value against the evaluation limits of sat()',
- 'C16': 'exception-escape (may-raise) analysis with exact try/except semantics; who-may-call lint',
+ 'C16': 'exception-escape (may-raise) analysis with exact try/except semantics; who-may-call lint; may-raise summaries of sibling readers and of int() applied to a possibly non-finite float',
  'C17': 'constant folding of convention tables + slice arithmetic; dominating length-guard analysis; avoided-name dataflow between add_layers and its callers; uniqstring-last ordering; name-space (searched dictionary = filled dictionary) check',
- 'C19': 'definite-assignment totality; case-matrix exhaustiveness; taint (alias) analysis requiring copy; receiver-role consistency; crossed-argument detection at call sites; memo-invalidation analysis; mutable-default lint; generator source-column role check',
+ 'C19': 'definite-assignment totality; case-matrix exhaustiveness; taint (alias) analysis requiring copy; receiver-role consistency; crossed-argument detection at call sites; memo-invalidation analysis; mutable-default lint; generator source-column role check; guard analysis of the surface shift in translate()',
  'C20': 'must-pass-through post-state; def-use flow to removal sites; dead-store detection; append-once path count; finite-model interpretation of the generator conversion; iteration-order evaluation of the EOS table; first-section insertion rule',
 }
 
